@@ -1,6 +1,7 @@
 /-
 C10 — The five mode stream objects equal NIST SP 800-38A; decryptors invert encryptors.
 -/
+import Wencry.Generated.Consts
 import Wencry.Proofs.ModesCorrect
 import Wencry.Proofs.AesCorrect
 namespace Wencry.Props.C10
@@ -61,5 +62,12 @@ theorem factory_null (isenc : Bool) (mode : Nat) (h : 4 < mode) (key iv : Block)
 
 /-- non-vacuity: the factory does create objects for modes 0..4 -/
 example : ∀ m, m ≤ 4 → (factoryKind true m).isSome ∧ (factoryKind false m).isSome := by decide
+
+/-- generated-data obligation: which mode numbers 0..255 `AesFactory::createCryMaster` knows, tabulated through the compiled factory on
+    every run, is what the model's factory knows -/
+theorem factory_knows_the_compiled_modes :
+    ((List.range 256).all fun t => Gen.cipherKnownEnc.getD t false == (factoryKind true t).isSome) = true ∧
+    ((List.range 256).all fun t => Gen.cipherKnownDec.getD t false == (factoryKind false t).isSome) = true := by
+  decide +kernel
 
 end Wencry.Props.C10
